@@ -114,7 +114,7 @@ def sort_of_ctype(q):
     if q == "double":
         return F64
     if "(*)" in q or q in ("trait_getattr", "trait_setattr", "trait_post_setattr", "trait_validate",
-                           "delegate_attr_name_func", "getattrofunc", "void *"):
+                           "delegate_attr_name_func", "getattrofunc", "visitproc", "void *"):
         return FN if q != "void *" else None
     if q.endswith("*"):
         return Obj
@@ -877,7 +877,7 @@ class CExec:
         if f.get("kind") == "DeclRefExpr" and f["referencedDecl"].get("kind") in ("VarDecl", "ParmVarDecl"):
             # call through a local function-pointer variable: dispatched by the pointer's typedef name
             fam = {"trait_post_setattr": "post_setattr", "trait_validate": "validate", "trait_getattr": "getattr",
-                   "trait_setattr": "setattr", "delegate_attr_name_func": "delegate_attr_name"}.get(f["type"]["qualType"])
+                   "trait_setattr": "setattr", "delegate_attr_name_func": "delegate_attr_name", "visitproc": "visitproc"}.get(f["type"]["qualType"])
             h = self.cx.field_call.get(fam)
             if h is not None:
                 return self.ev(f, st, lambda fn, st2: self.ev_list(argn, st2, lambda args, st3: h(self, fn, args, st3, k)))
